@@ -65,6 +65,11 @@ def gen_const(rng: random.Random, name: str):
     else:
         t = ["f", rng.choice([16, 32, 64]), rng.choice("st")]
     k = rng.random()
+    if rng.random() < 0.06:
+        # only boolean, integer and float types can carry constants: arrays / strings / byte arrays cannot, whatever the initializer
+        t = rng.choice([["var", ["utf8"], 16], ["arr", ["u", 8, "s"], 6], ["var", ["byte"], 4], ["arr", ["bool"], 2], ["var", ["u", 8, "t"], 1], ["arr", ["f", 32, "s"], 1]])
+        lit, v = rng.choice([('"sensor"', {"str": "sensor"}), ("'a'", {"str": "a"}), ("''", {"str": ""}), ("1", [1, 1]), ("true", True), ("{1}", {"set": 1}), ("'abcdef'", {"str": "abcdef"})])
+        return ["c", t, name, lit, v]
     if t[0] == "bool":
         if k < 0.6:
             v = rng.random() < 0.5
